@@ -439,8 +439,35 @@ def tensor_subclass_probe(ctx, xt):
             ctx.fail("oracle", "packer:tensor-subclass:exception", info, repr(e), "no exception on valid use")
 
 
+def noncontiguous_probe(ctx, xt):
+    """tensors that are transposed, expanded or strided VIEWS are tensors like any other: the flat interface concatenates their
+    elements in row-major order and the round trip reproduces values and shapes (round-5 seed C20/14: reshape(-1) became view(-1),
+    which raises for a transposed or expanded view)"""
+    base = torch.arange(6, dtype=torch.float64).reshape(2, 3)
+    views = {"transposed": base.t(), "expanded": torch.tensor([[1.0], [2.0]], dtype=torch.float64).expand(2, 3),
+             "column-strided": torch.arange(12, dtype=torch.float64).reshape(3, 4)[:, ::2], "plain": torch.tensor([7.0, 8.0], dtype=torch.float64)}
+    for names in (("transposed", "plain"), ("plain", "expanded"), ("column-strided", "transposed", "expanded"), ("transposed", "transposed")):
+        obj = {"k%d" % i: views[nm] for i, nm in enumerate(names)}
+        info = {"structure": "dict of " + ", ".join(names)}
+        ctx.count(("noncontiguous",) + names, nontrivial=True)
+        for u in (False, True):
+            try:
+                pk = xt.Packer(obj)
+                flat = pk.get_param_tensor(unique=u)
+                lst = pk.get_param_tensor_list(unique=u)
+                want = torch.cat([t.reshape(-1) for t in lst])
+                back = pk.construct_from_tensor(flat * 2, unique=u)
+            except Exception as e:
+                ctx.fail("oracle", "packer:noncontiguous:exception", dict(info, unique=u), repr(e)[:200], "a flat tensor and its round trip")
+                continue
+            ok = torch.equal(flat.reshape(-1), want) and all(back[k].shape == obj[k].shape and torch.equal(back[k], obj[k] * 2) for k in obj)
+            if not ok:
+                ctx.fail("oracle", "packer:noncontiguous:flat-roundtrip", dict(info, unique=u), flat.tolist(), want.tolist())
+
+
 def check(ctx):
     import xitorch as xt
+    noncontiguous_probe(ctx, xt)
     tuple_opacity_probe(ctx, xt)
     dtype_and_shape_history_probe(ctx, xt)
     tensor_subclass_probe(ctx, xt)
